@@ -67,7 +67,7 @@ func convertBoundExact(cv *ssa.Convert) (int, string) {
 	}
 	path := AccessPath(cv.X)
 	var ub *big.Int
-	for _, g := range guardsAt(cv.Block()) {
+	for _, g := range guardsAtPS(cv.Block()) {
 		if isLoopHeader(g.If.Block()) {
 			continue
 		}
@@ -420,7 +420,7 @@ func arithGuarded(in ssa.Instruction, operand ssa.Value) string {
 	for _, o := range ops {
 		paths[AccessPath(o)] = true
 	}
-	for _, g := range guardsAt(in.Block()) {
+	for _, g := range guardsAtPS(in.Block()) {
 		if isLoopHeader(g.If.Block()) {
 			continue
 		}
